@@ -28,6 +28,7 @@ PROSE = [
     "see `np.foo` for details",
     "sensible defaults apply",
     "Default handling is described elsewhere.",
+    "x",
 ]
 
 PHRASES = ["<writer>", "defaults to ", "defaults to\n", "Default value is ", "Default: "]
@@ -39,7 +40,7 @@ QUICK_VALUES = [
     (True, "bool"), (False, "bool"),
     (NONE_STR, "Optional[int]"),
     ("foo", "str"), ("two words", "str"), ("3", "str"), ("a.b", "str"), ("", "str"), ("it's", "str"),
-    ("-", "str"), ("mnist", "str"), ("~/tensorflow_datasets", "str"),
+    ("-", "str"), ("mnist", "str"), ("e.g. this", "str"), ("~/tensorflow_datasets", "str"),
     ("```np.empty(0)```", None), ("```['x', 'y']```", None), ("```[]```", None), ("```(1, 'x')```", None),
     ("```foo(1.5)```", None), ("```{'k': 1}```", None), ("(np.empty(0), np.empty(0))", None),
 ]
